@@ -28,11 +28,12 @@ type goroutine struct {
 }
 
 type scheduler struct {
-	in       *Interp
-	gs       []*goroutine
-	mainDone chan struct{}
-	abort    interface{} // set when the path must end (panic value to rethrow in main)
-	points   int
+	in          *Interp
+	gs          []*goroutine
+	mainDone    chan struct{}
+	abort       interface{} // set when the path must end (panic value to rethrow in main)
+	points      int
+	preemptions int
 }
 
 func (in *Interp) spawn(fr *frame, instr *ssa.Go, fn value, args []value) {
@@ -148,11 +149,29 @@ func (s *scheduler) yield(g *goroutine, exiting bool) {
 		return
 	}
 	var next *goroutine
+	// context bound: a goroutine that could continue is preempted at most
+	// cfg.maxPreemptions times per path; switches at blocking operations and
+	// at goroutine exit are free.
+	canContinue := false
+	if !exiting {
+		for k, x := range rs {
+			if x == g {
+				canContinue = true
+				rs[0], rs[k] = rs[k], rs[0] // decision 0 = keep running
+				break
+			}
+		}
+	}
 	if len(rs) == 1 {
 		next = rs[0]
+	} else if canContinue && s.preemptions >= in.cfg.maxPreemptions {
+		next = g
 	} else {
 		i := in.choose(len(rs), nil)
 		next = rs[i]
+		if canContinue && next != g {
+			s.preemptions++
+		}
 	}
 	if next == g && !exiting {
 		g.blocked = nil
